@@ -31,16 +31,17 @@ import (
 )
 
 type c03fParam struct {
-	Scn     string  `json:"scn"`
-	Files   [][]int `json:"files,omitempty"` // per file: sizes of its batches
-	Readers int     `json:"readers,omitempty"`
-	Arrival string  `json:"arrival,omitempty"` // files-reader: "" = each file delivers its batches in order, "reversed", "rotated" (numbered, out of order: what the parallel title-line parsers of the real readers do)
-	Parts   []int   `json:"parts,omitempty"` // dispatcher: sizes of the input batches
-	Batch   int     `json:"batch,omitempty"`
-	Mode    string  `json:"mode"`
-	Bound   int     `json:"bound"`
-	Policy  int     `json:"policy"`
-	Choices []int   `json:"choices,omitempty"`
+	Scn       string   `json:"scn"`
+	Files     [][]int  `json:"files,omitempty"` // per file: sizes of its batches
+	Readers   int      `json:"readers,omitempty"`
+	Arrival   string   `json:"arrival,omitempty"` // files-reader: "" = each file delivers its batches in order, "reversed", "rotated" (numbered, out of order: what the parallel title-line parsers of the real readers do)
+	Parts     []int    `json:"parts,omitempty"`   // dispatcher: sizes of the input batches
+	Batch     int      `json:"batch,omitempty"`
+	Mode      string   `json:"mode"`
+	Bound     int      `json:"bound"`
+	Policy    int      `json:"policy"`
+	Choices   []int    `json:"choices,omitempty"`
+	Conflicts []string `json:"conflicts,omitempty"` // racy-access sites that were scheduling points (replay)
 }
 
 func c03fFeed(prefix string, parts []int, keyOf func(k int) string) obiiter.IBioSequence {
@@ -352,7 +353,7 @@ func TestVerifC03F(t *testing.T) {
 		if err := json.Unmarshal(rc, &p); err != nil {
 			t.Fatal(err)
 		}
-		x := vsched.RunOncePolicy(p.Policy, p.Choices, 20000, nil, nil, func(x *vsched.Exec) { x.Obs = c03fBody(p) })
+		x := vsched.RunOncePolicy(p.Policy, p.Choices, 20000, vsched.ConflictSet(p.Conflicts), nil, func(x *vsched.Exec) { x.Obs = c03fBody(p) })
 		msg := check(p)(x)
 		r.Eval(1)
 		if msg != "" {
@@ -453,6 +454,7 @@ func TestVerifC03F(t *testing.T) {
 			seen[key] = true
 			q := p
 			q.Choices = v.Choices
+			q.Conflicts = v.Conflicts
 			r.Violate(key, fmt.Sprintf("%s files=%v arrival=%q readers=%d parts=%v batch=%d mode=%s policy=%d: %s [schedule=%v]", p.Scn, p.Files, p.Arrival, p.Readers, p.Parts, p.Batch, p.Mode, p.Policy, parts[1], v.Choices), q)
 		}
 	}
